@@ -44,6 +44,7 @@ type RunSpec struct {
 	MaxDepth   int      `json:"max_depth"`
 	Fixed      []uint64 `json:"fixed,omitempty"`
 	NoMerge    bool     `json:"no_merge,omitempty"`
+	classify   func(*Violation) string
 }
 
 type RunSummary struct {
@@ -392,8 +393,13 @@ func Explore(p *Program, entry *ssa.Function, spec *RunSpec) *RunSummary {
 				for i := range res.Violations {
 					v := res.Violations[i]
 					key := v.Kind + "|" + v.Label
+					if spec.classify != nil {
+						if c := spec.classify(&v); c != "" {
+							key += "|" + c
+						}
+					}
 					sum.ViolGroups[key]++
-					if sum.ViolGroups[key] <= 25 {
+					if sum.ViolGroups[key] <= keepPerGroup {
 						sum.Violations = append(sum.Violations, &v)
 					}
 				}
@@ -455,3 +461,14 @@ func compactND(nd []NDVal) []string {
 	}
 	return out
 }
+
+var keepPerGroup = func() int {
+	if v := os.Getenv("GOSYM_KEEP"); v != "" {
+		var n int
+		fmt.Sscanf(v, "%d", &n)
+		if n > 0 {
+			return n
+		}
+	}
+	return 5
+}()
